@@ -152,7 +152,7 @@ Definition do_walk (cls id : bytes) (mode : N) (bf : bool) (k : kwargs) (pay : b
   : result (wst) :=
   do pd <- get_dict cls id mode k pay;
   walk_list atttype readonly_names cfgdb storsize scalround cls id mode bf kwo budget pd []
-    {| w_off := O; w_pay := pay; w_attrs := [] |}.
+    {| w_off := O; w_pay := pay; w_attrs := []; w_trace := [] |}.
 
 (* UBXMessage(cls, id, mode, parsebitfield=bf, **kwargs) with class and id already bytes *)
 Definition construct (cls id : bytes) (mode : N) (bf : bool) (k : kwargs) : result msg :=
